@@ -793,7 +793,8 @@ const projPrelude = `(declare-sort Head 0)
 (declare-fun head_wh (Head Int) Head)
 (declare-fun body_json (RBody Iface) RBody)
 (declare-fun body_copy (RBody Iface) RBody)
-(declare-fun body_write (RBody) RBody)
+(declare-fun body_write (RBody Str) RBody)
+(declare-fun slice_text (Slice) Str)
 (declare-sort RCore 0)
 (declare-fun respCore (Trace) RCore)
 (declare-fun core_ct (RCore Str) RCore)
@@ -827,8 +828,11 @@ func (e *FuncEnc) declareProjections(name, fn string, bs, as, sorts []string, ev
 		body = fmt.Sprintf("(body_json (respBody t) %s)", as[1])
 	case name == "io.Copy" && len(as) == 2 && sorts[1] == "Iface":
 		body = fmt.Sprintf("(body_copy (respBody t) %s)", as[1])
-	case name == "http.ResponseWriter.Write":
-		body = "(body_write (respBody t))"
+	case (name == "http.ResponseWriter.Write" || name == "io.Writer.Write") && len(as) == 2 && sorts[1] == "Slice":
+		// the text written: known for slices made from a string (slice_text axiom)
+		body = fmt.Sprintf("(body_write (respBody t) (slice_text %s))", as[1])
+	case name == "io.WriteString" && len(as) == 2 && sorts[1] == "Str":
+		body = fmt.Sprintf("(body_write (respBody t) %s)", as[1])
 	}
 	q := strings.Join(bs, " ")
 	e.D.Axiom("proj:"+fn, fmt.Sprintf("(forall ((t Trace) %s) (! (and (= (respHead (tr_cons t %s)) %s) (= (respBody (tr_cons t %s)) %s) (= (respCore (tr_cons t %s)) %s)) :pattern ((tr_cons t %s))))", q, ev, head, ev, body, ev, core, ev))
